@@ -37,7 +37,7 @@ func C01(c Ctx) *report.Report {
 	rep := report.New("C01", c.Seed, c.Tier)
 	rng := chain.NewRng(c.Seed)
 	next := 0
-	hs := []History{ScriptF2(&next)} // corpus first
+	hs := []History{ScriptF2(&next), ScriptReinvestDry(&next)} // corpus first (wallet payout that outruns the bucket; re-invested bucket that runs dry)
 	hs = append(hs, RunClpHistories(c, rep, rng, clpOpts(c, 40, 1500), &next)...)
 	for _, h := range hs {
 		MonSolvency(rep, h)
